@@ -68,11 +68,12 @@ MANIFEST = dict(
           "closer than d) for point_to_triangle (7 regions), point_to_rectangle, point_to_box, point_to_disk, "
           "point_to_cylinder, point_to_circle (outside its epsilon band; counterexample theorem inside it) on the faithful "
           "model; model compared with the implementation on lattice (exact) and general (Float) inputs; all 34 functions "
-          "searched for a verified closer pair / separating-plane certificate."),
+          "searched for a verified closer pair / separating-plane certificate. " 
+          "Link theorems (regenerated from today's source by py2lean on every run, D3/Gen/Link11.lean) tie point_to_box, point_to_disk and utils.inverse_transform_point to the model for every input. "),
     note=("trusted: Lean kernel + Mathlib, axioms propext/Classical.choice/Quot.sound; exact-real semantics; correspondence "
           "harness (sampling); 26 functions are covered by the certificate search only; known findings listed in "
           "known_findings.d/C11.json."),
-    technique="Lean 4 proof (variational inequality) on hand-written model + correspondence + certificate search",
+    technique="Lean 4 proof (variational inequality) on hand-written model + correspondence + certificate search + py2lean-regenerated kernels linked to the model by theorem",
     design="§7 C11")
 
 TOL_REL = 1e-6
